@@ -141,12 +141,15 @@ def gen_flip_cases(rng, thorough):
     data = np.array([rng.randrange(-50, 50) for _ in range(int(np.prod(shape)))]).reshape(shape).tolist()
     cases.append({'kind': 'flip', 'api': rng.choice(APIS), 'time_major': rng.random() < 0.4, 'lens': lens, 'data': data, 'feat': feat, 'nb': 1})
   # two batch axes
-  pal2 = [(rng.randrange(2, 6), rng.randrange(1, 3), rng.randrange(2, 4)) for _ in range(2 if not thorough else 10)]
-  for _ in range(16 if not thorough else 200):
-    T, b1, b2 = rng.choice(pal2)
+  # two batch axes, batch-major AND time-major, square and non-square batch shapes, lengths not symmetric in (i, j)
+  pal2 = [(rng.randrange(3, 6), 2, 2), (rng.randrange(3, 6), 2, 3)] + [(rng.randrange(2, 6), rng.randrange(1, 4), rng.randrange(1, 4)) for _ in range(0 if not thorough else 8)]
+  for i in range(16 if not thorough else 300):
+    T, b1, b2 = pal2[i % len(pal2)]
     lens = [[rng.randrange(1, T + 1) for _ in range(b2)] for _ in range(b1)]
+    if b1 >= 2 and b2 >= 2 and T >= 2:
+      lens[0][1], lens[1][0] = 1, T
     data = np.array([rng.randrange(-50, 50) for _ in range(b1 * b2 * T)]).reshape(b1, b2, T).tolist()
-    cases.append({'kind': 'flip', 'api': rng.choice(APIS), 'time_major': False, 'lens': lens, 'data': data, 'feat': 0, 'nb': 2})
+    cases.append({'kind': 'flip', 'api': APIS[(i // len(pal2)) % 2], 'time_major': (i // (2 * len(pal2))) % 2 == 1, 'lens': lens, 'data': data, 'feat': 0, 'nb': 2})
   return cases
 
 
@@ -376,28 +379,32 @@ def gen_intrnn_cases(rng, thorough):
   n = 120 if not thorough else 6000
   npal = 3 if not thorough else 40
   palette = [(rng.randrange(1, 7), [rng.randrange(1, 4)], rng.randrange(1, 3)) for _ in range(npal)]
-  palette += [(rng.randrange(2, 6), [rng.randrange(1, 3), rng.randrange(2, 4)], 1) for _ in range(1 if not thorough else 8)]
+  pal2 = [(rng.randrange(3, 6), [2, 2], 1), (rng.randrange(3, 5), rng.choice([[2, 3], [3, 2]]), 1)]
+  pal2 += [(rng.randrange(2, 6), [rng.randrange(1, 3), rng.randrange(2, 4)], 1) for _ in range(0 if not thorough else 8)]
   if not any(T >= 4 for T, _, _ in palette):
     palette[0] = (rng.randrange(4, 7), palette[0][1], palette[0][2])
   for i in range(n):
     bidir = rng.random() < 0.2
-    T, bshape, F = rng.choice(palette)
+    T, bshape, F = rng.choice(pal2) if i % 4 == 3 else rng.choice(palette)
     bshape = list(bshape)
     nbat = int(np.prod(bshape))
-    lens = None if rng.random() < 0.2 else np.array([rng.randrange(1, T + 1) for _ in range(nbat)]).reshape(bshape).tolist()
+    two = len(bshape) == 2
+    lens = None if rng.random() < (0.1 if two else 0.2) else np.array([rng.randrange(1, T + 1) for _ in range(nbat)]).reshape(bshape).tolist()
+    if two and lens is not None:
+      lens[0][1], lens[1][0] = 1, T  # not symmetric across the two batch axes
     x = np.array([rng.randrange(0, 60) for _ in range(nbat * T * F)]).reshape(bshape + [T, F]).tolist()
     c0 = None
     if rng.random() < 0.4:
       c0 = [np.array([rng.randrange(0, 40) for _ in range(nbat * F)]).reshape(bshape + [F]).tolist() for _ in range(2)]
     case = {
       'kind': 'int-bidir' if bidir else 'int-rnn', 'api': rng.choice(APIS), 'cell': [rng.randrange(1, 6), rng.randrange(1, 6), rng.choice([97, 101, 64])],
-      'x': x, 'lens': lens, 'c0': c0, 'time_major': rng.random() < 0.35 and len(bshape) == 1, 'return_carry': rng.random() < 0.7,
+      'x': x, 'lens': lens, 'c0': c0, 'time_major': rng.random() < (0.5 if two else 0.35), 'return_carry': rng.random() < 0.7,
     }
     if bidir:
       case['cellb'] = [rng.randrange(1, 6), rng.randrange(1, 6), rng.choice([97, 101])]
       case['c0b'] = None if c0 is None else [np.array([rng.randrange(0, 40) for _ in range(nbat * F)]).reshape(bshape + [F]).tolist() for _ in range(2)]
     else:
-      case['reverse'] = rng.random() < 0.5
+      case['reverse'] = rng.random() < (0.7 if two else 0.5)
       case['keep_order'] = rng.random() < 0.5
       case['flags_in_call'] = rng.random() < 0.5
     cases.append(case)
